@@ -35,7 +35,7 @@ def confuse(rng, s):
 class C15(Prop):
     id = "C15"
     prop_file = "Props/C15"
-    level = "other"
+    level = "proof"
     binary_cases = True
     quick_n = 4000
     thorough_n = 100000
